@@ -361,6 +361,54 @@ theorem draining_waits_for_work (w : W) (hb : w.blocked = false) (hd : w.drain =
       | cons _ _ => rfl
     simp [hb, hd, this, hs]
 
+open Factory in
+/-- (drain after the LAST busy worker died — audit item) `handle_supervisor_evt` ends without the `is_drained()`
+check that ends `handle`: when the last busy worker of a draining factory dies, the factory — now idle, queue
+empty — is still up after the supervision event. It stops at the NEXT message it handles; the one that is
+guaranteed to come is the `Calculate` tick (re-armed by every `calculate_metrics`, period
+`CALCULATE_FREQUENCY` = 100 ms): for ANY such state, handling `Calculate` (not suspended in a capacity
+controller) raises the stop signal. So "the factory then stops" holds with a delay of at most one tick; the
+harness's own post-operation query plays the role of that next message (stat
+`drained_factory_stopped_only_by_next_message`). -/
+theorem drain_completes_at_next_tick (w : W) (hd : w.drain = .draining)
+    (hidle : w.pool.all (·.isAvailable) = true) (hq : w.queue = []) (hb : w.blocked = false)
+    (hg : (w.cfg.hasCC && w.armed) = false) :
+    ((w.handleMsg .calculate).afterHandle).stopSignal = true := by
+  have h1 : w.handleMsg .calculate = w.calcRest := by
+    show (if w.cfg.hasCC && w.armed then { w with armed := false, blocked := true } else w.calcRest) = _
+    rw [hg]; rfl
+  rw [h1]
+  have hpool : w.calcRest.pool = w.pool := by
+    unfold W.calcRest W.removeExpired; split <;> rfl
+  have hqueue : w.calcRest.queue = [] := by
+    unfold W.calcRest W.removeExpired; split
+    · simp only [hq, List.filter_nil]
+    · exact hq
+  have hblocked : w.calcRest.blocked = false := by
+    unfold W.calcRest W.removeExpired; split <;> exact hb
+  have hdrain : w.calcRest.drain = .draining := by
+    unfold W.calcRest W.removeExpired; split <;> exact hd
+  exact (drained_factory_stops w.calcRest hblocked hdrain (by rw [hpool]; exact hidle) hqueue).1
+
+open Factory in
+/-- the scenario on the model (queuer, 1 worker): job 1 running, DrainRequests, the worker is killed. Right
+after the supervision event (before any further message) the factory is up, idle and draining, its stop signal
+down; 100 ms later — the `Calculate` tick, no other message — it has stopped. -/
+def drainDeathCase : CaseCfg :=
+  { cfg := { router := .q, prioQueue := false, hasHandler := true, table := [], hasCC := false }, n := 1, disc := none, rl := none }
+open Factory in
+def drainDeathSteps : List Step :=
+  [⟨.nop, 0, 2000000, 3000000⟩, ⟨.dispatch 1 1 0 none false, 3000000, 4000000, 5000000⟩, ⟨.drain, 5000000, 6000000, 7000000⟩]
+open Factory in
+def drainDeathAfterKill : W := W.runQ RUN_FUEL (((init drainDeathCase).runSteps drainDeathSteps).applyOp (.kill 0))
+open Factory in
+example : drainDeathAfterKill.exited = false ∧ drainDeathAfterKill.stopSignal = false ∧
+    drainDeathAfterKill.drain = .draining ∧ drainDeathAfterKill.queue.length = 0 ∧
+    drainDeathAfterKill.pool.map (·.isAvailable) = [true] ∧ drainDeathAfterKill.inbox.length = 0 := by decide +kernel
+open Factory in
+example : (W.advanceTo 110000000 (advanceFuel drainDeathAfterKill 110000000) drainDeathAfterKill).exited = true := by
+  decide +kernel
+
 /-! ## Lifecycle hooks run in the order started, draining, stopped -/
 
 open Factory in
@@ -468,6 +516,7 @@ end C15
 #print axioms C15.pool_shape
 #print axioms C15.live_workers_are_pool_slots_partial
 #print axioms C15.slot_workers_open_at_message_boundary_partial
+#print axioms C15.drain_completes_at_next_tick
 #print axioms C15.pool_converges
 #print axioms C15.resize_sets_size
 #print axioms C15.drain_is_forever
